@@ -70,7 +70,7 @@ def gen_cases(seed: int, max_params: int, per_case: int, budget: int) -> List[Di
                     for c in call:
                         p = s2[c["p"] - 1]
                         if p["an"] == "T":
-                            vc = rng.choice(["conv", "conv", "nconv", "native", "none", "model", "dc"])
+                            vc = rng.choice(["conv", "conv", "nconv", "native", "none", "model", "dc", "convfalsy"])
                         else:
                             vc = rng.choice(["native", "none", "model", "dc", "conv"])
                         c2.append(dict(c, vc=vc))
